@@ -207,6 +207,6 @@ SqTick(sq, out) ==
        THEN LET c == SqCancel(sq1, out) IN [sq |-> c.sq, out |-> c.out, panic |-> ""]
        ELSE [sq |-> sq1, out |-> out, panic |-> ""]
 
-SqProj(sq) == [act |-> sq.act, seq |-> sq.seq, ov |-> sq.ov, raw |-> sq.raw, ttl |-> sq.ttl,
-               timeout |-> sq.timeout, mode |-> sq.mode]
+\* (the stored timeout is not projected: it is private bookkeeping of the implementation and shows in ttl at the next key)
+SqProj(sq) == [act |-> sq.act, seq |-> sq.seq, ov |-> sq.ov, raw |-> sq.raw, ttl |-> sq.ttl, mode |-> sq.mode]
 =============================================================================
